@@ -140,8 +140,12 @@ theorem qok_awaitQueue (fuel : Nat) {s s' : S} {d : Nat} {r : ReadRes} (h : QOk 
           rw [this] at hv; simpa [isV3, hc] using hv
         exact h c hc hv' pkt (List.mem_of_mem_head? hq)
     · split at ha
-      · cases ha; exact ⟨qok_setNow d h, by intro raw hr; cases hr⟩
-      · exact ih (qok_deliverDue _ h) ha
+      · split at ha
+        · cases ha; exact ⟨qok_of_conn_eq h rfl, by intro raw hr; cases hr⟩
+        · cases ha; exact ⟨qok_setNow d h, by intro raw hr; cases hr⟩
+      · split at ha
+        · cases ha; exact ⟨qok_of_conn_eq h rfl, by intro raw hr; cases hr⟩
+        · exact ih (qok_deliverDue _ h) ha
 
 
 /-! ### facts that only depend on the abstract state -/
@@ -333,7 +337,7 @@ theorem hs_acc_noclose {t : Option Bytes} {tr : List Ev} (h : ∀ e ∈ tr, HsTo
   · cases e <;> simp_all [isAccept, isClosed, isConnect]
 
 theorem protoAuthenticate_contain {p : Params} {rx : Reactions} {s s' : S} {token key : Option Bytes} {r : R Unit}
-    (hq : QOk s) (hs : (coreOf s).isSome = true) (hv : isV3 s = true)
+    (hq : QOk s) (hs : (coreOf s).isSome = true) (hv : isV3 s = true) (hnc : s.w.cancelAt = none)
     (htok : ∀ t, token = some t → t.length < 65536) (hkey : ∀ k, key = some k → k.length = 32)
     (h : protoAuthenticate p rx s token key = (r, s')) :
     QOk s' ∧ (∀ e, r = .error e → Allowed e) ∧ (r = .ok () → authenticated s' = true) ∧
@@ -360,6 +364,10 @@ theorem protoAuthenticate_contain {p : Params} {rx : Reactions} {s s' : S} {toke
             simp only [Prod.mk.injEq] at h
             obtain ⟨rfl, rfl⟩ := h
             exact ⟨(qok_awaitQueue _ hq1 ha).1, (by intro e he; cases he; exact .inr (.inr rfl)), (by intro hh; cases hh)⟩
+          · rename_i s2 ha
+            have hnc1 : s1.w.cancelAt = none := by
+              rw [cancelAt_opWriteHS hw1]; unfold flush; rw [cancelAt_softConn]; exact hnc
+            exact absurd rfl (awaitQueue_unarmed _ hnc1 ha).1
           · rename_i raw s2 ha
             obtain ⟨hq2, hlen⟩ := qok_awaitQueue _ hq1 ha
             obtain ⟨c, _, ht, hc1⟩ := opWriteHS_tr hw1
@@ -375,7 +383,7 @@ theorem protoAuthenticate_contain {p : Params} {rx : Reactions} {s s' : S} {toke
 
 
 theorem authLoop_contain {p : Params} {rx : Reactions} {token key : Option Bytes} (n : Nat) {s s' : S} {r : R Unit}
-    (hq : QOk s) (hs : (coreOf s).isSome = true) (hv : isV3 s = true)
+    (hq : QOk s) (hs : (coreOf s).isSome = true) (hv : isV3 s = true) (hnc : s.w.cancelAt = none)
     (htok : ∀ t, token = some t → t.length < 65536) (hkey : ∀ k, key = some k → k.length = 32)
     (h : authLoop p rx token key n s = (r, s')) :
     QOk s' ∧ (∀ e, r = .error e → Allowed e) ∧ (r = .ok () → 0 < n → authenticated s' = true) := by
@@ -387,13 +395,13 @@ theorem authLoop_contain {p : Params} {rx : Reactions} {token key : Option Bytes
     · rename_i s1 hp
       simp only [Prod.mk.injEq] at h
       obtain ⟨rfl, rfl⟩ := h
-      obtain ⟨a1, _, a3, _⟩ := protoAuthenticate_contain hq hs hv htok hkey hp
+      obtain ⟨a1, _, a3, _⟩ := protoAuthenticate_contain hq hs hv hnc htok hkey hp
       exact ⟨a1, (by intro e he; cases he), fun _ _ => a3 rfl⟩
     · rename_i s1 hp
-      obtain ⟨a1, _, _, a4, a5⟩ := protoAuthenticate_contain hq hs hv htok hkey hp
+      obtain ⟨a1, _, _, a4, a5⟩ := protoAuthenticate_contain hq hs hv hnc htok hkey hp
       split at h
       · rename_i hn
-        obtain ⟨b1, b2, b3⟩ := ih a1 a4 a5 h
+        obtain ⟨b1, b2, b3⟩ := ih a1 a4 a5 (noCancel_protoAuthenticate hnc hp) h
         exact ⟨b1, b2, fun hr _ => b3 hr (by omega)⟩
       · simp only [Prod.mk.injEq] at h
         obtain ⟨rfl, rfl⟩ := h
@@ -401,7 +409,7 @@ theorem authLoop_contain {p : Params} {rx : Reactions} {token key : Option Bytes
     · rename_i e s1 _ hp
       simp only [Prod.mk.injEq] at h
       obtain ⟨rfl, rfl⟩ := h
-      obtain ⟨a1, a2, _⟩ := protoAuthenticate_contain hq hs hv htok hkey hp
+      obtain ⟨a1, a2, _⟩ := protoAuthenticate_contain hq hs hv hnc htok hkey hp
       exact ⟨a1, (by intro e' he; cases he; exact a2 e rfl), (by intro hh; cases hh)⟩
 
 theorem qok_of_abs_conn {s s' : S} (h : QOk s) (he : s'.l.conn = s.l.conn) : QOk s' := qok_of_conn_eq h he
@@ -433,26 +441,26 @@ theorem opConnect_contain {p : Params} {s s' : S} {r : R Unit} (hn : s.l.conn = 
 theorem coreOf_none_of_conn {s : S} (h : s.l.conn = none) : coreOf s = none := by simp [coreOf, h]
 
 theorem lanAuthenticate_contain {p : Params} {rx : Reactions} {s s' : S} {token key : Option Bytes} {n : Nat} {r : R Unit}
-    (hq : QOk s) (hn : 0 < n)
+    (hq : QOk s) (hn : 0 < n) (hnc : s.w.cancelAt = none)
     (htok : ∀ t, pickCred token key s.l.token = some t → t.length < 65536)
     (hkey : ∀ k, pickCred key token s.l.key = some k → k.length = 32)
     (h : lanAuthenticate p rx s token key n = (r, s')) :
     QOk s' ∧ (∀ e, r = .error e → Allowed e) ∧ (r = .ok () → (coreOf s').isSome = true) := by
   -- the two branches share everything after the (possible) reconnect
-  have tail : ∀ s1 : S, QOk s1 → (coreOf s1).isSome = true → isV3 s1 = true →
+  have tail : ∀ s1 : S, QOk s1 → (coreOf s1).isSome = true → isV3 s1 = true → s1.w.cancelAt = none →
       (match authLoop p rx (pickCred token key s.l.token) (pickCred key token s.l.key) n s1 with
         | (.error e, s2) => (.error e, s2)
         | (.ok (), s2) => finishAuth p s2 (pickCred token key s.l.token) (pickCred key token s.l.key)) = (r, s') →
       QOk s' ∧ (∀ e, r = .error e → Allowed e) ∧ (r = .ok () → (coreOf s').isSome = true) := by
-    intro s1 hq1 hs1 hv1 ht
+    intro s1 hq1 hs1 hv1 hnc1 ht
     split at ht
     · rename_i e s2 hl
       simp only [Prod.mk.injEq] at ht
       obtain ⟨rfl, rfl⟩ := ht
-      obtain ⟨b1, b2, _⟩ := authLoop_contain n hq1 hs1 hv1 htok hkey hl
+      obtain ⟨b1, b2, _⟩ := authLoop_contain n hq1 hs1 hv1 hnc1 htok hkey hl
       exact ⟨b1, (by intro e' he; cases he; exact b2 e rfl), (by intro hh; cases hh)⟩
     · rename_i s2 hl
-      obtain ⟨b1, _, b3⟩ := authLoop_contain n hq1 hs1 hv1 htok hkey hl
+      obtain ⟨b1, _, b3⟩ := authLoop_contain n hq1 hs1 hv1 hnc1 htok hkey hl
       have hauth := b3 rfl hn
       obtain ⟨rfl, hq'⟩ := finishAuth_contain b1 hauth ht
       obtain ⟨habs, _⟩ := finishAuth_tr ht
@@ -468,13 +476,16 @@ theorem lanAuthenticate_contain {p : Params} {rx : Reactions} {s s' : S} {token 
       exact ⟨c1, (by intro e' he; cases he; exact c2 e rfl), (by intro hh; cases hh)⟩
     · rename_i s1 hc
       rcases opConnect_tr (coreOf_none_of_conn hn0) hc with ⟨_, _, hs1⟩ | ⟨⟨e, he, _⟩, _⟩
-      · refine tail s1 (by rw [hs1]; exact qok_opConnected _) (by rw [hs1, coreOf_opConnected]; rfl) ?_ h
-        rw [hs1, isV3_opConnected]; simp [dropConnect, setVersion3]
+      · refine tail s1 (by rw [hs1]; exact qok_opConnected _) (by rw [hs1, coreOf_opConnected]; rfl) ?_ ?_ h
+        · rw [hs1, isV3_opConnected]; simp [dropConnect, setVersion3]
+        · rw [cancelAt_opConnect hc]
+          show (opDisconnect s).w.cancelAt = none
+          rw [cancelAt_opDisconnect]; exact hnc
       · cases he
   · rename_i hcond
     have hal : connAlive s = true ∧ isV3 s = true := by
       simp only [Bool.or_eq_true, Bool.not_eq_true', not_or, Bool.not_eq_false] at hcond; exact hcond
-    exact tail s hq (connAlive_isSome hal.1) hal.2 h
+    exact tail s hq (connAlive_isSome hal.1) hal.2 hnc h
 
 theorem sendLoop_contain {p : Params} {rx : Reactions} {frame : Bytes} (n : Nat) {s s' : S} {acc : List Bytes}
     {r : R (List Bytes)} (hq : QOk s) (hs : (coreOf s).isSome = true) (h : sendLoop p rx frame n s acc = (r, s')) :
@@ -503,6 +514,9 @@ theorem sendLoop_contain {p : Params} {rx : Reactions} {frame : Bytes} (n : Nat)
         · simp only [Prod.mk.injEq] at h
           obtain ⟨rfl, rfl⟩ := h
           exact ⟨qok_opDisconnect, (by intro e he; cases he; exact .inr (.inr rfl))⟩
+      · simp only [Prod.mk.injEq] at h
+        obtain ⟨rfl, rfl⟩ := h
+        exact ⟨qok_opDisconnect, (by intro e he; cases he; exact .inr (.inr rfl))⟩
       · rename_i raw s2 ha
         obtain ⟨hq2, hlen⟩ := qok_awaitQueue _ hq1 ha
         have hd : ∀ e, decodeRead s2 raw = .error e → e = .protocol :=
@@ -555,16 +569,16 @@ theorem credOk_of_creds {s s' : S} (h : CredOk s) (he : creds s' = creds s) : Cr
 theorem lanRetries_pos : 0 < Generated.lanRetries := by decide
 
 theorem ensureAuth_contain {p : Params} {rx : Reactions} {s s' : S} {r : R Unit} (hq : QOk s) (hc : CredOk s)
-    (hs : (coreOf s).isSome = true) (h : ensureAuth p rx s = (r, s')) :
+    (hs : (coreOf s).isSome = true) (hnc : s.w.cancelAt = none) (h : ensureAuth p rx s = (r, s')) :
     QOk s' ∧ (∀ e, r = .error e → Allowed e) ∧ (r = .ok () → (coreOf s').isSome = true) := by
   unfold ensureAuth at h
   split at h
-  · exact lanAuthenticate_contain hq lanRetries_pos (by rw [pickCred_none]; exact hc.1) (by rw [pickCred_none]; exact hc.2) h
+  · exact lanAuthenticate_contain hq lanRetries_pos hnc (by rw [pickCred_none]; exact hc.1) (by rw [pickCred_none]; exact hc.2) h
   · cases h; exact ⟨hq, (by intro e he; cases he), fun _ => hs⟩
 
 /-- **containment of `LAN.send`** -/
 theorem lanSend_contain {p : Params} {rx : Reactions} {s s' : S} {frame : Bytes} {n : Nat} {r : R (List Bytes)}
-    (hq : QOk s) (hc : CredOk s) (h : lanSend p rx s frame n = (r, s')) :
+    (hq : QOk s) (hc : CredOk s) (hnc : s.w.cancelAt = none) (h : lanSend p rx s frame n = (r, s')) :
     QOk s' ∧ CredOk s' ∧ (∀ e, r = .error e → Allowed e) := by
   refine ⟨?_, credOk_of_creds hc (creds_lanSend h), ?_⟩ <;> unfold lanSend at h
   all_goals split at h
@@ -580,13 +594,14 @@ theorem lanSend_contain {p : Params} {rx : Reactions} {s s' : S} {frame : Bytes}
       · have hq1 : QOk s1 := by rw [hs1]; exact qok_opConnected _
         have hs1' : (coreOf s1).isSome = true := by rw [hs1, coreOf_opConnected]; rfl
         have hc1 : CredOk s1 := credOk_of_creds hc (by rw [hs1]; simp)
+        have hnc1 : s1.w.cancelAt = none := by rw [cancelAt_opConnect hco, cancelAt_opDisconnect]; exact hnc
         split at h
         · rename_i e s2 ha
           simp only [Prod.mk.injEq] at h
           obtain ⟨rfl, rfl⟩ := h
-          exact (ensureAuth_contain hq1 hc1 hs1' ha).1
+          exact (ensureAuth_contain hq1 hc1 hs1' hnc1 ha).1
         · rename_i s2 ha
-          obtain ⟨d1, _, d3⟩ := ensureAuth_contain hq1 hc1 hs1' ha
+          obtain ⟨d1, _, d3⟩ := ensureAuth_contain hq1 hc1 hs1' hnc1 ha
           exact (exchange_contain d1 (d3 rfl) h).1
       · cases he
   · rename_i hal
@@ -595,9 +610,9 @@ theorem lanSend_contain {p : Params} {rx : Reactions} {s s' : S} {frame : Bytes}
     · rename_i e s2 ha
       simp only [Prod.mk.injEq] at h
       obtain ⟨rfl, rfl⟩ := h
-      exact (ensureAuth_contain hq hc hs0 ha).1
+      exact (ensureAuth_contain hq hc hs0 hnc ha).1
     · rename_i s2 ha
-      obtain ⟨d1, _, d3⟩ := ensureAuth_contain hq hc hs0 ha
+      obtain ⟨d1, _, d3⟩ := ensureAuth_contain hq hc hs0 hnc ha
       exact (exchange_contain d1 (d3 rfl) h).1
   · -- errors, reconnect
     have hn0 : (opDisconnect s).l.conn = none := conn_opDisconnect s
@@ -612,14 +627,15 @@ theorem lanSend_contain {p : Params} {rx : Reactions} {s s' : S} {frame : Bytes}
       · have hq1 : QOk s1 := by rw [hs1]; exact qok_opConnected _
         have hs1' : (coreOf s1).isSome = true := by rw [hs1, coreOf_opConnected]; rfl
         have hc1 : CredOk s1 := credOk_of_creds hc (by rw [hs1]; simp)
+        have hnc1 : s1.w.cancelAt = none := by rw [cancelAt_opConnect hco, cancelAt_opDisconnect]; exact hnc
         split at h
         · rename_i e s2 ha
           simp only [Prod.mk.injEq] at h
           obtain ⟨rfl, rfl⟩ := h
           intro e' he; cases he
-          exact (ensureAuth_contain hq1 hc1 hs1' ha).2.1 e rfl
+          exact (ensureAuth_contain hq1 hc1 hs1' hnc1 ha).2.1 e rfl
         · rename_i s2 ha
-          obtain ⟨d1, _, d3⟩ := ensureAuth_contain hq1 hc1 hs1' ha
+          obtain ⟨d1, _, d3⟩ := ensureAuth_contain hq1 hc1 hs1' hnc1 ha
           exact (exchange_contain d1 (d3 rfl) h).2
       · cases he
   · rename_i hal
@@ -629,9 +645,9 @@ theorem lanSend_contain {p : Params} {rx : Reactions} {s s' : S} {frame : Bytes}
       simp only [Prod.mk.injEq] at h
       obtain ⟨rfl, rfl⟩ := h
       intro e' he; cases he
-      exact (ensureAuth_contain hq hc hs0 ha).2.1 e rfl
+      exact (ensureAuth_contain hq hc hs0 hnc ha).2.1 e rfl
     · rename_i s2 ha
-      obtain ⟨d1, _, d3⟩ := ensureAuth_contain hq hc hs0 ha
+      obtain ⟨d1, _, d3⟩ := ensureAuth_contain hq hc hs0 hnc ha
       exact (exchange_contain d1 (d3 rfl) h).2
 
 end Msmart.Lemmas.Sess
